@@ -864,6 +864,37 @@ func stressHedge(seed int64, scale int) int {
 		wg.Wait()
 		v.count(fmt.Sprintf("hedges=%d", hedgeEvents.Load()))
 	}
+	// a retry policy around the hedge policy: every round of the retry policy is a hedged execution of its own. A loser of round 1 that
+	// is slow to notice its cancellation and returns during round 2 does not count as one of round 2's attempts: round 2 still
+	// delivers a non-cancellable result only after both of ITS attempts have finished
+	for i := 0; i < scale; i++ {
+		var calls atomic.Int32
+		rp := retrypolicy.Builder[int]().HandleResult(77).WithMaxRetries(1).Build()
+		hp := hedgepolicy.BuilderWithDelay[int](60 * time.Millisecond).WithMaxHedges(1).CancelOnResult(77).Build()
+		t0 := time.Now()
+		val, err := failsafe.NewExecutor[int](rp, hp).GetWithExecution(func(e failsafe.Execution[int]) (int, error) {
+			switch calls.Add(1) {
+			case 1: // round 1, first attempt: a straggler, returns 45 ms after it has been cancelled
+				<-e.Canceled()
+				time.Sleep(45 * time.Millisecond)
+				return 0, errX
+			case 2: // round 1, hedge (at 60 ms): the cancellable result that ends the round and that the retry policy handles
+				return 77, nil
+			case 3: // round 2, first attempt (at 60 ms): fails at 135 ms - after the straggler's return (105 ms), before the hedge's
+				time.Sleep(75 * time.Millisecond)
+				return 0, errX
+			default: // round 2, hedge (at 120 ms): the last to finish (180 ms)
+				time.Sleep(60 * time.Millisecond)
+				return 1, nil
+			}
+		})
+		runs++
+		v.count("retry-around-hedge-straggler")
+		if err != nil || val != 1 || calls.Load() != 4 {
+			v.add(fmt.Sprintf("retry around hedge: round 2 delivered (%d, %v) after %d invocations and %v (want the last attempt's (1, nil) after 4): a straggler of round 1 was counted as an attempt of round 2",
+				val, err, calls.Load(), time.Since(t0).Round(time.Millisecond)))
+		}
+	}
 	// a hedge policy inside a hedge policy: the attempt that wins is the inner policy's hedge, running inside the outer policy's hedge.
 	// When the composition returns the winner has not been cancelled and every other started attempt has.
 	for i := 0; i < 2*scale; i++ {
